@@ -275,14 +275,50 @@ let spec (input : string) (obs : string) : string =
       else "OK"
     | _ -> "FAIL malformed-input"
 
+(* main: the cases are independent, so they are spread over worker processes (each a re-exec of this
+   binary under an unlimited stack: payload lists can be megabytes deep); outputs are concatenated. *)
+let read_lines file =
+  let ic = open_in file in
+  let acc = ref [] in
+  (try while true do acc := input_line ic :: !acc done with End_of_file -> ());
+  close_in ic; Stdlib.List.rev !acc
+
+let append_file oc file =
+  let ic = open_in_bin file in
+  let buf = Bytes.create 65536 in
+  let rec go () = let n = input ic buf 0 65536 in if n > 0 then (output oc buf 0 n; go ()) in
+  go (); close_in ic
+
 let () =
-  (* deep lists (payloads of megabytes): re-exec once with an unlimited stack *)
-  (match Sys.getenv_opt "C14_STACK" with
-   | Some _ -> ()
-   | None ->
-     (try
-        Unix.putenv "C14_STACK" "1";
-        let cmd = String.concat " " (Stdlib.List.map Filename.quote (Array.to_list Sys.argv)) in
-        Unix.execv "/bin/sh" [| "/bin/sh"; "-c"; "ulimit -s unlimited 2>/dev/null || ulimit -s 1000000 2>/dev/null; exec " ^ cmd |]
-      with _ -> ()));
-  run_driver model spec
+  match Sys.getenv_opt "C14_CHILD" with
+  | Some _ -> run_driver model spec
+  | None ->
+    let cases = Sys.argv.(1) and impl = Sys.argv.(2) and mout = Sys.argv.(3) and sout = Sys.argv.(4) in
+    let lines = Array.of_list (read_lines cases) in
+    let n = Array.length lines in
+    let workers = try int_of_string (Sys.getenv "C14_WORKERS") with _ -> 8 in
+    let k = max 1 (min workers (n / 50 + 1)) in
+    let chunk i = Printf.sprintf "%s.part%d" cases i in
+    let ocs = Array.init k (fun i -> open_out (chunk i)) in
+    Array.iteri (fun j l -> output_string ocs.(j mod k) l; output_char ocs.(j mod k) '\n') lines;
+    Array.iter close_out ocs;
+    Unix.putenv "C14_CHILD" "1";
+    let self = Sys.executable_name in
+    let pids = Array.init k (fun i ->
+        let cmd = Printf.sprintf "ulimit -s unlimited 2>/dev/null || ulimit -s 1000000 2>/dev/null; exec %s %s %s %s %s"
+            (Filename.quote self) (Filename.quote (chunk i)) (Filename.quote impl)
+            (Filename.quote (Printf.sprintf "%s.part%d" mout i)) (Filename.quote (Printf.sprintf "%s.part%d" sout i)) in
+        Unix.create_process "/bin/sh" [| "/bin/sh"; "-c"; cmd |] Unix.stdin Unix.stdout Unix.stderr) in
+    let failed = ref false in
+    Array.iter (fun pid -> match Unix.waitpid [] pid with
+        | (_, Unix.WEXITED 0) -> ()
+        | _ -> failed := true) pids;
+    let mo = open_out_bin mout and so = open_out_bin sout in
+    for i = 0 to k - 1 do
+      (try append_file mo (Printf.sprintf "%s.part%d" mout i) with _ -> failed := true);
+      (try append_file so (Printf.sprintf "%s.part%d" sout i) with _ -> failed := true);
+      Stdlib.List.iter (fun f -> try Sys.remove f with _ -> ())
+        [chunk i; Printf.sprintf "%s.part%d" mout i; Printf.sprintf "%s.part%d" sout i]
+    done;
+    close_out mo; close_out so;
+    if !failed then (prerr_endline "c14_driver: a worker failed"; exit 2)
